@@ -4,6 +4,7 @@ import (
 	"fmt"
 	"math"
 	"math/big"
+	"sort"
 	"strconv"
 	"strings"
 	"verifharness/internal/refjson"
@@ -721,6 +722,112 @@ func runC07(c *fw.Ctx) {
 						c.Violate("equals-differs-from-structural-equality", in()+fmt.Sprintf("\noperands: %s  x = %s  y = %s", what, wx.Canon(), wy.Canon()), fmt.Sprint(want), fmt.Sprint(got))
 						return
 					}
+				}
+			}
+		})
+	})
+	// a container and its clone that went separate ways: the same number of writes on each side, with different or with
+	// the same outcome; what counts is what the two hold now, not where they came from or how often they were written to
+	c.Cases("diverged-clones", c.N(600, 200000), false, func(i int, r *rng.R) {
+		root := spec.Obj
+		if i%3 == 0 {
+			root = spec.List
+		}
+		tree := spec.GenTree(r, spec.Opts{MaxDepth: 3, MaxWidth: 4, Root: root, ScalarBias: 3, SafeKeys: true})
+		var trace []string
+		in := func() string {
+			return "a = " + tree.Canon() + "; b = a.Clone(); then " + strings.Join(trace, "; ")
+		}
+		guard(c, in, func() {
+			a := drive.Build(r, tree)
+			var b any
+			switch x := a.(type) {
+			case at.List:
+				b = x.Clone()
+			case at.Object:
+				b = x.Clone()
+			}
+			// nested containers of both sides in the same order (the clone has the same shape)
+			var nodes func(v any) []any
+			nodes = func(v any) []any {
+				out := []any{v}
+				switch x := v.(type) {
+				case at.List:
+					for j := 0; j < x.Count(); j++ {
+						switch x.TypeOf(j) {
+						case at.TypeList, at.TypeObject:
+							out = append(out, nodes(x.Get(j))...)
+						}
+					}
+				case at.Object:
+					ks := x.Keys()
+					var keys []string
+					for j := 0; j < ks.Count(); j++ {
+						keys = append(keys, ks.GetString(j))
+					}
+					sort.Strings(keys)
+					for _, k := range keys {
+						switch x.TypeOf(k) {
+						case at.TypeList, at.TypeObject:
+							out = append(out, nodes(x.Get(k))...)
+						}
+					}
+				}
+				return out
+			}
+			na, nb := nodes(a), nodes(b)
+			if len(na) != len(nb) {
+				return
+			}
+			edits := r.Range(1, 4)
+			same := r.Chance(1, 4) // the writes of both sides have the same outcome
+			for e := 0; e < edits; e++ {
+				at2 := r.Intn(len(na))
+				va, vb := any(e), any(e+100)
+				if r.Chance(1, 3) {
+					va, vb = fmt.Sprintf("s%d", e), fmt.Sprintf("t%d", e)
+				}
+				if same {
+					vb = va
+				}
+				ka, kb := fmt.Sprintf("w%d", r.Intn(3)), fmt.Sprintf("w%d", r.Intn(3))
+				if same || r.Bool() {
+					kb = ka
+				}
+				for side, n := range []any{na[at2], nb[at2]} {
+					k, v := ka, va
+					if side == 1 {
+						k, v = kb, vb
+					}
+					switch x := n.(type) {
+					case at.List:
+						if x.Count() > 0 && r.Bool() {
+							x.Replace(0, v)
+						} else {
+							x.Add(v)
+						}
+					case at.Object:
+						x.Set(k, v)
+					}
+				}
+				trace = append(trace, fmt.Sprintf("container %d of a gets %v (key %s), of b %v (key %s)", at2, va, ka, vb, kb))
+			}
+			wa, erra := drive.Walk(a)
+			wb, errb := drive.Walk(b)
+			if erra != nil || errb != nil {
+				return
+			}
+			want := spec.Equal(wa.ToSpec(), wb.ToSpec())
+			c.Distinct(in())
+			if want {
+				c.Count("diverged_clones_equal_again")
+			} else {
+				c.Count("diverged_clones_unequal")
+			}
+			for rep := 0; rep < 2; rep++ {
+				if ab, ba := equalsOf(a, b), equalsOf(b, a); ab != want || ba != want {
+					c.Violate("equals-differs-from-structural-equality", in()+"\nnow a = "+stringCanon(a)+"\n    b = "+stringCanon(b), fmt.Sprintf("a.Equals(b) = b.Equals(a) = %v", want), fmt.Sprintf("%v / %v", ab, ba))
+					return
 				}
 			}
 		})
